@@ -87,5 +87,21 @@ Fixpoint mrun_out (m : matrix) (ops : list mop) : list Z :=
   end.
 Definition mat_hist (m : matrix) (ops : list mop) : list Z := fl_mat m ++ mrun_out m ops.
 
+(* the same history with, after every state dump, the result of the derived PartialEq against a freshly
+   built matrix of the same shape and entries (kind mat.histeq): Vec equality of the raw buffers, i.e.
+   true exactly when the buffer holds rows*cols elements (no stale tail, nothing missing) *)
+Definition fl_mat_eq (m : matrix) : list Z :=
+  fl_mat m ++ fl_bool (length (buf m) =? rows m * cols m).
+Fixpoint mrun_out_eq (m : matrix) (ops : list mop) : list Z :=
+  match ops with
+  | [] => []
+  | o :: t =>
+      match mstep m o with
+      | Ok (m', v) => fl_val v ++ fl_mat_eq m' ++ mrun_out_eq m' t
+      | Panic k => fl_panic k ++ fl_mat_eq m ++ mrun_out_eq m t
+      end
+  end.
+Definition mat_histeq (m : matrix) (ops : list mop) : list Z := fl_mat_eq m ++ mrun_out_eq m ops.
+
 End Ops.
 Arguments mop A : clear implicits.
